@@ -18,7 +18,7 @@ Definition chk (fx : fixes) (s0 : st) (w : list label) (P : st -> bool) : bool :
   match run fx s0 w with Some s => P s | None => false end.
 
 Lemma chk_run fx s0 w P : chk fx s0 w P = true -> exists s, run fx s0 w = Some s /\ P s = true.
-Proof. unfold chk; destruct (run fx s0 w); [eauto|discriminate]. Qed.
+Proof. unfold chk; destruct (run fx s0 w); [eauto|intros H; discriminate H]. Qed.
 
 Definition is_none {A} (o : option A) : bool := match o with None => true | Some _ => false end.
 Definition nat_list_eqb (a b : list nat) : bool := if list_eq_dec Nat.eq_dec a b then true else false.
@@ -29,7 +29,7 @@ Definition sock_ret (role : nat) (s : st) : bool :=
 Lemma sock_ret_In role s : sock_ret role s = true -> In (USockClose, C_OK, role) (rets s).
 Proof.
   unfold sock_ret; rewrite existsb_exists; intros [[[u rv] ro] [Hin H]].
-  destruct u; try discriminate. apply andb_prop in H as [H1 H2].
+  destruct u; try discriminate H. apply andb_prop in H as [H1 H2].
   apply N.eqb_eq in H1; apply Nat.eqb_eq in H2; subst; auto.
 Qed.
 
@@ -55,10 +55,10 @@ Proof.
   split; [|split; [|split]].
   - intros k. destruct (lt_dec k (length (threads s))) as [Hk|Hk].
     + rewrite forallb_forall in H1. specialize (H1 k). rewrite in_seq in H1.
-      destruct (step fx s (LRun k)); auto. discriminate H1; lia.
+      destruct (step fx s (LRun k)); auto. assert (X: false = true) by (apply H1; lia). discriminate X.
     + simpl. destruct (nth_error (threads s) k) eqn:E; auto.
       exfalso; apply Hk; apply nth_error_Some; congruence.
-  - destruct (step fx s LReap); auto; discriminate.
+  - destruct (step fx s LReap); auto; discriminate H2.
   - intros e rv Hi; simpl in *. destruct (nth_error (eps s) e) eqn:E; auto.
     pose proof (forallb_nth _ _ _ _ H3 E) as Hb; simpl in Hb. rewrite Hi in Hb; simpl in Hb.
     apply Nat.eqb_eq in Hb; rewrite Hb; auto.
@@ -80,7 +80,7 @@ Proof.
   assert (H: chk (mkFixes false b c d e) (init PhProto false false) w_ephold (fun s => nat_list_eqb (bad s) [B_REF_UNDERFLOW]) = true)
     by (destruct b, c, d, e; vm_compute; reflexivity).
   apply chk_run in H as (s & Hr & Hb). exists s; split; auto.
-  unfold nat_list_eqb in Hb; destruct (list_eq_dec Nat.eq_dec (bad s) [B_REF_UNDERFLOW]); [auto|discriminate].
+  unfold nat_list_eqb in Hb; destruct (list_eq_dec Nat.eq_dec (bad s) [B_REF_UNDERFLOW]); [auto|discriminate Hb].
 Qed.
 
 (* defect 2 (fx_epid = false): nng_dialer_create racing nng_socket_close -- the endpoint is on the
@@ -97,7 +97,7 @@ Proof.
   assert (H: chk (mkFixes a false c d e) (init PhProto false false) w_epid (fun s => nat_list_eqb (bad s) [B_FIND_FREED]) = true)
     by (destruct a, c, d, e; vm_compute; reflexivity).
   apply chk_run in H as (s & Hr & Hb). exists s; split; auto.
-  unfold nat_list_eqb in Hb; destruct (list_eq_dec Nat.eq_dec (bad s) [B_FIND_FREED]); [auto|discriminate].
+  unfold nat_list_eqb in Hb; destruct (list_eq_dec Nat.eq_dec (bad s) [B_FIND_FREED]); [auto|discriminate Hb].
 Qed.
 
 (* defect 3 (fx_ctxfini = false): nng_ctx_close racing nng_socket_close -- the context leaves s_ctxs
@@ -125,12 +125,12 @@ Proof.
   unfold ctxfini_bad in Hb.
   apply andb_prop in Hb as [Hb H4]; apply andb_prop in Hb as [Hb H3]; apply andb_prop in Hb as [H1 H2].
   split; [apply sock_ret_In; auto|].
-  split; [unfold nat_list_eqb in H2; destruct (list_eq_dec Nat.eq_dec (bad s) []); [auto|discriminate]|].
+  split; [unfold nat_list_eqb in H2; destruct (list_eq_dec Nat.eq_dec (bad s) []); [auto|discriminate H2]|].
   split.
-  - destruct (nth_error (ctxs s) 0) as [x|]; [|discriminate]. exists x; split; auto.
-    unfold n_list_eqb in H3; destruct (list_eq_dec N.eq_dec (c_pend x) [1%N]); [auto|discriminate].
-  - destruct (step (mkFixes a b false d e) s (LRun 2)) as [s'|]; [|discriminate]. exists s'; split; auto.
-    unfold nat_list_eqb in H4; destruct (list_eq_dec Nat.eq_dec (bad s') [B_SOCK_FREED]); [auto|discriminate].
+  - destruct (nth_error (ctxs s) 0) as [x|]; [|discriminate H3]. exists x; split; auto.
+    unfold n_list_eqb in H3; destruct (list_eq_dec N.eq_dec (c_pend x) [1%N]); [auto|discriminate H3].
+  - destruct (step (mkFixes a b false d e) s (LRun 2)) as [s'|]; [|discriminate H4]. exists s'; split; auto.
+    unfold nat_list_eqb in H4; destruct (list_eq_dec Nat.eq_dec (bad s') [B_SOCK_FREED]); [auto|discriminate H4].
 Qed.
 
 (* defect 4 (fx_lateop = false), protocols whose sock_fini does not finalize a master context and
@@ -156,8 +156,8 @@ Proof.
   unfold lateop_bad in Hb.
   apply andb_prop in Hb as [Hb H5]; apply andb_prop in Hb as [Hb H4]; apply andb_prop in Hb as [Hb H3]; apply andb_prop in Hb as [H1 H2].
   split; [apply sock_ret_In; auto|]. split; auto.
-  split; [unfold n_list_eqb in H3; destruct (list_eq_dec N.eq_dec (k_pend (sk s)) [1%N]); [auto|discriminate]|].
-  split; [destruct (done s); [auto|discriminate]|]. apply no_step_b_sound; auto.
+  split; [unfold n_list_eqb in H3; destruct (list_eq_dec N.eq_dec (k_pend (sk s)) [1%N]); [auto|discriminate H3]|].
+  split; [destruct (done s); [auto|discriminate H4]|]. apply no_step_b_sound; auto.
 Qed.
 
 (* defect 5 (fx_ctxopen = false): nng_ctx_open racing nng_socket_close -- the context is created
@@ -181,8 +181,8 @@ Proof.
   apply chk_run in H as (s & Hr & Hb). exists s; split; auto.
   unfold ctxopen_bad in Hb.
   apply andb_prop in Hb as [Hb H3]; apply andb_prop in Hb as [H1 H2].
-  split; [destruct (nth_error (threads s) 1) as [[|[] r]|]; try discriminate; eauto|].
-  split; [unfold nat_list_eqb in H2; destruct (list_eq_dec Nat.eq_dec (bad s) []); [auto|discriminate]|].
+  split; [destruct (nth_error (threads s) 1) as [[|[] r]|]; try discriminate H1; eauto|].
+  split; [unfold nat_list_eqb in H2; destruct (list_eq_dec Nat.eq_dec (bad s) []); [auto|discriminate H2]|].
   apply no_step_b_sound; auto.
 Qed.
 
@@ -209,10 +209,10 @@ Proof.
   unfold pipe_bad in Hb. apply andb_prop in Hb as [Hb H3]; apply andb_prop in Hb as [H1 H2].
   split.
   - unfold pipe_ret in H1; rewrite existsb_exists in H1. destruct H1 as [[[u rv] ro] [Hin H]].
-    destruct u; try discriminate. destruct p; try discriminate. apply N.eqb_eq in H; subst. eauto.
-  - split; [destruct (find_pipe s 0); [discriminate|auto]|].
-    destruct (nth_error (pipes s) 0) as [x|]; [|discriminate]. exists x.
-    apply andb_prop in H3 as [Ha Hb]. repeat split; auto. destruct (p_freed x); [discriminate|auto].
+    destruct u; try discriminate H. destruct p; try discriminate H. apply N.eqb_eq in H; subst. eauto.
+  - split; [destruct (find_pipe s 0); [discriminate H2|auto]|].
+    destruct (nth_error (pipes s) 0) as [x|]; [|discriminate H3]. exists x.
+    apply andb_prop in H3 as [Ha Hb]. repeat split; auto. destruct (p_freed x); [discriminate Hb|auto].
 Qed.
 
 (* three concurrent closers, every repair applied: the third finds s_closing and s_closed set and
@@ -234,9 +234,9 @@ Proof.
   apply chk_run in H as (s & Hr & Hb). exists s; split; auto.
   unfold late_bad in Hb. apply andb_prop in Hb as [Hb H4]; apply andb_prop in Hb as [Hb H3]; apply andb_prop in Hb as [H1 H2].
   split; [apply sock_ret_In; auto|].
-  split; [destruct (find_ep s 0); [discriminate|auto]|].
-  split; [unfold nat_list_eqb in H3; destruct (list_eq_dec Nat.eq_dec (bad s) []); [auto|discriminate]|].
-  destruct (nth_error (eps s) 0) as [x|]; [|discriminate]. eauto.
+  split; [destruct (find_ep s 0); [discriminate H2|auto]|].
+  split; [unfold nat_list_eqb in H3; destruct (list_eq_dec Nat.eq_dec (bad s) []); [auto|discriminate H3]|].
+  destruct (nth_error (eps s) 0) as [x|]; [|discriminate H4]. eauto.
 Qed.
 
 (* ================================================================ Part 2: lists *)
@@ -245,10 +245,10 @@ Lemma upd_length {A} (l : list A) i f : length (upd l i f) = length l.
 Proof. revert i; induction l; intros [|i]; simpl; auto. Qed.
 
 Lemma nth_upd_eq {A} (l : list A) i f x : nth_error l i = Some x -> nth_error (upd l i f) i = Some (f x).
-Proof. revert i; induction l; intros [|i]; simpl; try discriminate; auto. intros [= ->]; auto. Qed.
+Proof. revert i; induction l; intros [|i]; simpl; try discriminate; auto. intros H; injection H as ->; auto. Qed.
 
 Lemma nth_upd_neq {A} (l : list A) i j f : i <> j -> nth_error (upd l i f) j = nth_error l j.
-Proof. revert i j; induction l; intros [|i] [|j]; simpl; auto; try congruence. intros; apply IHl; congruence. Qed.
+Proof. revert i j; induction l; intros [|i] [|j] H; simpl; auto; try congruence. Qed.
 
 Lemma nth_upd_none {A} (l : list A) i f : nth_error l i = None -> upd l i f = l.
 Proof. revert i; induction l; intros [|i]; simpl; auto; try discriminate. intros; f_equal; auto. Qed.
@@ -280,7 +280,7 @@ Proof. induction l1; simpl; lia. Qed.
 
 Lemma sum_upd {A} (g : A -> nat) (l : list A) i f x :
   nth_error l i = Some x -> sum g (upd l i f) + g x = sum g l + g (f x).
-Proof. revert i; induction l; intros [|i]; simpl; try discriminate. intros [= ->]; lia. intros H; specialize (IHl _ H); lia. Qed.
+Proof. revert i; induction l; intros [|i]; simpl; try discriminate. intros H; injection H as ->; lia. intros H; specialize (IHl _ H); lia. Qed.
 
 Lemma sum_upd_none {A} (g : A -> nat) (l : list A) i f : nth_error l i = None -> sum g (upd l i f) = sum g l.
 Proof. intros; rewrite nth_upd_none; auto. Qed.
